@@ -32,7 +32,7 @@ func runC14(c *core.Ctx) {
 		r := c.Rng("case", i)
 		layout := layouts[r.Intn(len(layouts))]
 		w := newWorld(r, worldOpts{Exact: i%2 == 0, Hostile: true, Notes: true, Layout: layout, MinDays: 1,
-			Names: gen.NameOpts{Unicode: true, Spaces: true, Slash: true, Punct: ".,;:'()&%+*=!?@_-\"#", MaxLen: 12}})
+			Names: gen.NameOpts{Unicode: true, Spaces: true, Slash: true, Punct: ".,;:'()&%+*=!?@_-\"#", MaxLen: 12, Edge: gen.EdgePunct}})
 		files := map[string]string{"log.yaml": w.LogText}
 		var opts []string
 		env := map[string]string{}
